@@ -17,7 +17,7 @@ from typing import Any, Dict, List, Optional, Tuple
 import sympy as sp
 
 from ..algebra import SymEval, Untranslatable, is_zero, residual_text
-from ..gateblocks import InstructionListBuilder
+from ..gateblocks import InstructionListBuilder, GuardViolation
 from ..index import FuncInfo, get_index, dotted, norm, const_str
 from ..registry import get_registry
 from ..report import Context, AnalysisError
@@ -118,6 +118,11 @@ def run(ctx: Context) -> None:
             continue
         try:
             got, steps, assumptions = _translate(idx, reg, m, call, angles)
+        except GuardViolation as e:
+            n_checked += 1
+            ctx.obligation("C19b", key, False, f"{ctx.relpath(m.path)}:{arm.lineno}")
+            ctx.violation("C19b", key + "|skip-guard", m.path, getattr(e.node, "lineno", arm.lineno), f"gate `{name}`: {e}", norm(e.node).split("\n")[0])
+            continue
         except Untranslatable as e:
             ctx.error(str(e))
             continue
@@ -133,6 +138,30 @@ def run(ctx: Context) -> None:
                           f"Qiskit's {name} is {want}; difference {residual_text(res)} (a wrong relative or global phase changes the "
                           f"statistics of compositions and controlled uses)", "; ".join(s for s, _ in steps))
     ctx.require_floor("single-qubit dual-rail builders checked", n_checked, 9)
+    # ---- (c) the order of a gate's qubit operands (control, target) reaches the mode lists unchanged ------------------
+    from .C16 import ModesTaint, ORDER_DESTROYING
+    enc = m.functions.get("_encode_dual_rail_from_qiskit")
+    if enc is None:
+        raise AnalysisError("anchor vanished: _encode_dual_rail_from_qiskit")
+    n_q = 0
+    for n in ast.walk(enc.node):
+        if isinstance(n, (ast.Assign, ast.AnnAssign)) and n.value is not None:
+            uses_qubits = [x for x in ast.walk(n.value) if isinstance(x, ast.Attribute) and x.attr == "qubits"]
+            if not uses_qubits:
+                continue
+            n_q += 1
+            destroyers = [x for x in ast.walk(n.value) if isinstance(x, ast.Call) and (dotted(x.func) or "").split(".")[-1] in ORDER_DESTROYING
+                          and any(isinstance(y, ast.Attribute) and y.attr == "qubits" for y in ast.walk(x))]
+            key = f"{MOD}:_encode_dual_rail_from_qiskit|qubit-operand-order"
+            ctx.obligation("C19c", key, not destroyers, f"{ctx.relpath(m.path)}:{n.lineno}")
+            for d_ in destroyers:
+                ctx.violation("C19c", key, m.path, d_.lineno,
+                              f"`{norm(d_)[:80]}` reorders the qubit operands of a gate before the mode lists are built: for "
+                              f"non-symmetric two-qubit gates (cx with control index > target index) control and target are exchanged",
+                              norm(d_)[:100])
+    if n_q == 0:
+        raise AnalysisError("C19c: anchor vanished: no use of instruction.qubits in _encode_dual_rail_from_qiskit")
+    ctx.rule("C19c", "the order of a gate's qubit operands is not sorted/uniqued before modes are assigned")
 
 
 def _translate(idx, reg, m, call: ast.Call, angles: List[sp.Symbol], depth: int = 0):
